@@ -15,6 +15,10 @@ fn fb(t: &str, x: f64) -> String {
 }
 
 fn float_value(rng: &mut Rng) -> f64 {
+    if rng.chance(1, 40) {
+        // the ends of the float range: infinities, huge and tiny magnitudes, a subnormal
+        return *rng.pick(&[f64::INFINITY, f64::NEG_INFINITY, 1e300, -1e300, 1e-300, 5e-324, f64::MAX, 3.0e38, 1.0e-40]);
+    }
     match rng.below(6) {
         0 | 1 => rng.range(-32, 32) as f64 / 8.0,               // small dyadics, many ties
         2 => rng.range(-3, 3) as f64,
